@@ -138,6 +138,9 @@ contract('SmtpRelayClient._check_replies', props=['C11', 'C06'],
 
 contract('SmtpRelayClient._check_server_timeout', props=['C14'],
          params={'self': 'SmtpRelayClient'}, returns='Bool',
+         # True exactly when the server had something to say while the connection was idle (its time-out notice, or a
+         # broken connection found while reading it): the caller then puts the request back instead of using the connection
+         checks=['ncalls("ClientView.has_reply_waiting") == 1', 'result == call_result("ClientView.has_reply_waiting", 0)'],
          raises={'AssertionError': [], 'Timeout': [], 'OSError': []}, modifies=['fresh'], **RC)
 
 extern('str', params={})
